@@ -76,6 +76,16 @@ ASSIGNS()
 ENSURES(RET == (ONCURVE(P) ? 1 : 0))
 ;
 
+#ifdef CONTRACT_IS_AT_INFINITY_RECORDING
+int G_isinf_last; unsigned G_isinf_calls;
+int sm2_z256_point_is_at_infinity(const SM2_Z256_POINT *P)
+REQUIRES(R_OK(P, sizeof(*P)))
+ASSIGNS(G_isinf_last, G_isinf_calls)
+ENSURES(RET == (ISINF(P) ? 1 : 0))
+ENSURES(VAL4(P->Z) != 0 IMPLIES RET == 0)
+ENSURES(G_isinf_last == RET && G_isinf_calls == OLD(G_isinf_calls) + 1)
+;
+#else
 int sm2_z256_point_is_at_infinity(const SM2_Z256_POINT *P)
 REQUIRES(R_OK(P, sizeof(*P)))
 ASSIGNS()
@@ -83,6 +93,7 @@ ENSURES(RET == (ISINF(P) ? 1 : 0))
 /* a point with Z != 0 is never reported as infinity */
 ENSURES(VAL4(P->Z) != 0 IMPLIES RET == 0)
 ;
+#endif
 
 void sm2_z256_point_set_infinity(SM2_Z256_POINT *P)
 REQUIRES(W_OK(P, sizeof(*P)))
@@ -118,6 +129,7 @@ ENSURES(RET == 1 IMPLIES BEVAL32(x_bytes) < (bv256)BV_P && V256(P->X) == TOMONT(
 ENSURES(RET == 1 IMPLIES VAL4(P->Y) < BV_P)
 ;
 
+#ifndef CONTRACT_FROM_OCTETS_RECORDING
 /* SEC1 octets.  C12: success means a validated finite point — except the explicit one-byte encoding 00 of the
    point at infinity, which this generic decoder may return and which every key / key-share importer must refuse. */
 int sm2_z256_point_from_octets(SM2_Z256_POINT *P, const uint8_t *in, size_t inlen)
@@ -128,6 +140,8 @@ ENSURES(RET == 1 IMPLIES ((in[0] == 0x00 && inlen == 1 && VAL4(P->Z) == 0)
 	|| ((in[0] == 0x02 || in[0] == 0x03) && inlen == 33 && V256(P->Z) == BV_MONT_ONE && V256(P->X) == TOMONT(BEVAL32(in + 1)))
 	|| (in[0] == 0x04 && inlen == 65 && POINT_VALID(P) && V256(P->X) == TOMONT(BEVAL32(in + 1)) && V256(P->Y) == TOMONT(BEVAL32(in + 33)))))
 ;
+
+#endif
 
 int sm2_z256_point_get_xy(const SM2_Z256_POINT *P, uint64_t x[4], uint64_t y[4])
 REQUIRES(R_OK(P, sizeof(*P)) && W_OK(x, 32) && (y == NULL || W_OK(y, 32)))
